@@ -777,7 +777,7 @@ pub fn run_all(ctx: &mut Ctx, replay: Option<&Path>) {
     ctx.regressions(&rc);
     ctx.regressions(&f);
     ctx.exhaustive(&g, "grid: n, value in {0,1,2,3,7,100,MAX-1,MAX}^2 for LessThanN (u32 counters), 8 f64 values with neighbours, EveryN n in 1..=12 x value in 0..=100, OptimumReached 4 optima x 6 epsilons x 10 best values around the edge", grid_cases().into_iter());
-    ctx.random(&g, grid_strategy(), ctx.tier.pick(100_000, 1_000_000));
+    ctx.random(&g, grid_strategy(), ctx.tier.pick(300_000, 1_500_000));
     ctx.exhaustive(&l, "n in 0..40 x {plain, in scope}", (0..40u32).flat_map(|n| (0..2u8).map(move |shape| LoopCase { n, shape })));
     ctx.random(&l, (0u32..400, 0u8..2).prop_map(|(n, shape)| LoopCase { n, shape }), ctx.tier.pick(300, 3000));
     // ChangeOf: all histories of length <= 5 over {1,2,3} with PartialEq and Delta(2), i64
